@@ -491,6 +491,18 @@ def run_queue_check(prop, tier, seed):
         for pid, msg in judge_schedule(c, o):
             if pid == prop:
                 failures.append((len(c), c, o, msg))
+    if prop == "C10":
+        # the bound holds for large capacities too (the model's capacity is any number; the scripted histories use small
+        # ones): the worker is parked with one metric, then capacity + 16 more are offered
+        for c in ["QB 70000 16", "QB 1048576 16", "QB 1048579 5"] + (["QB 4194304 7"] if thorough else []):
+            capn, extra = int(c.split()[1]), int(c.split()[2])
+            try:
+                o = common.run_harness("queue", [c], shards=1, env={"VERIF_CASE_TIMEOUT": "120"})[0]
+            except common.CheckFailure as e:
+                o = "bad the process running the case died: " + str(e)[-300:].replace("\n", " ")
+            if o != "acc %d ref %d q %d" % (capn, extra, capn):
+                failures.append((len(c), c, o, "a queue of capacity %d with its worker busy: %s (expected exactly %d accepted, %d refused)" % (
+                    capn, o, capn, extra)))
     if prop == "C11":
         # tens of thousands of panics over the life of one sink (a worker that is restarted on its own stack, or a restart
         # budget, only shows after that many); each soak in its own process, which a stack overflow would kill
